@@ -284,7 +284,8 @@ class FilterSuite(Suite):
         # F5: Walk evaluates patterns with parent results, the reference/Open with the stateless matcher: they differ only when negations are present;
         # the walk itself is right w.r.t. the no-pruning run of the same algorithm
         "F5": lambda op, impl, model: any(p.startswith(b"!") for p in FilterSuite._pats(op)) and
-        [s["p"] for s in (impl.get("out") or [])] == model.get("noprune"),
+        [s["p"] for s in (impl.get("out") or [])] == model.get("noprune") and
+        [[p, c] for p, c in impl.get("open", [])] == model.get("open"),
     }
 
 
